@@ -983,13 +983,6 @@ The version counter of the cache model stands for "the current parameter values"
 handed the object the element already holds (edited in place by the caller), and the setter changes the *kind* of the
 value (constant <-> function of grid / wavelength / both). -/
 
-/-- Invariants of an element with a parameter: the cache invariants, and one recorded value per parameter version. -/
-def PInv (e : Elem) (p : PSt) : Prop := Inv e p.st ∧ p.vals.length = p.st.ver + 1
-
-theorem pinv_init (e : Elem) (v : PVal) : PInv e (PSt.init v) := ⟨inv_init e 0, rfl⟩
-
-example : ∃ (e : Elem) (p : PSt), PInv e p := ⟨⟨true, true, 11, fun _ _ g => some g, fun _ _ g => some g⟩, _, pinv_init _ ⟨0, 0, 0⟩⟩
-
 theorem builtFrom_current {vals : List PVal} {ver : Nat} (h : vals.length = ver + 1) :
     builtFrom vals ver = vals.headD default := by
   cases vals with
@@ -998,9 +991,11 @@ theorem builtFrom_current {vals : List PVal} {ver : Nat} (h : vals.length = ver 
     have h0 : t.length - ver = 0 := by simp at h; omega
     simp [builtFrom, h0]
 
-theorem pstep_inv {e : Elem} (hT : Truthful e) (hmax : 1 ≤ e.maxN) {p : PSt} (hp : PInv e p) (op : POp) :
-    PInv e (pstep e p op).1 := by
-  obtain ⟨hi, hl⟩ := hp
+/-- The invariants of an element with a parameter -- the cache invariants, and one recorded value per parameter
+version -- hold at construction and after every step. -/
+theorem pstep_inv {e : Elem} (hT : Truthful e) (hmax : 1 ≤ e.maxN) {p : PSt} (hi : Inv e p.st)
+    (hl : p.vals.length = p.st.ver + 1) (op : POp) :
+    Inv e (pstep e p op).1.st ∧ (pstep e p op).1.vals.length = (pstep e p op).1.st.ver + 1 := by
   obtain ⟨hi', hver⟩ := step_req_inv hT hmax hi op.toOp
   cases op with
   | req i o w => exact ⟨hi', by simpa [pstep, POp.toOp] using hl.trans (by simp [POp.toOp] at hver; omega)⟩
@@ -1011,19 +1006,21 @@ theorem pstep_inv {e : Elem} (hT : Truthful e) (hmax : 1 ≤ e.maxN) {p : PSt} (
     simp only [pstep, POp.toOp, List.length_cons, hl]
     omega
 
+example : ∃ (e : Elem) (p : PSt), Inv e p.st ∧ p.vals.length = p.st.ver + 1 :=
+  ⟨⟨true, true, 11, fun _ _ g => some g, fun _ _ g => some g⟩, PSt.init ⟨0, 0, 0⟩, inv_init _ 0, rfl⟩
+
 /-- **Setters are transparent in the values**: after any history of requests, `clear_cache()` calls and setters --
 whatever objects the setters were handed (the same object again, edited in place, included) and however the kind of
 the value changed --, every request is answered by an instance built from the value the element holds *now*, exactly
 as a freshly constructed element given that value would. -/
 theorem transparent_values {e : Elem} (hT : Truthful e) (hmax : 1 ≤ e.maxN) (ops : List POp) :
-    ∀ p : PSt, PInv e p → prun e p ops = pspec e p.stored p.st.ver ops := by
+    ∀ p : PSt, Inv e p.st → p.vals.length = p.st.ver + 1 → prun e p ops = pspec e p.stored p.st.ver ops := by
   induction ops with
-  | nil => intro p _; rfl
+  | nil => intro p _ _; rfl
   | cons op ops ih =>
-    intro p hp
-    have hp' := pstep_inv hT hmax hp op
-    have ih' := ih _ hp'
-    obtain ⟨hi, hl⟩ := hp
+    intro p hi hl
+    obtain ⟨hi2, hl2⟩ := pstep_inv hT hmax hi hl op
+    have ih' := ih _ hi2 hl2
     obtain ⟨_, hver⟩ := step_req_inv hT hmax hi op.toOp
     cases op with
     | set v =>
@@ -1051,25 +1048,28 @@ theorem transparent_values {e : Elem} (hT : Truthful e) (hmax : 1 ≤ e.maxN) (o
       rw [h2]
       simp [pstep, POp.toOp, PSt.stored, hv]
 
+/-- **Setter that changes the kind of the value** (or anything else about it): the next complete request is answered by an
+instance built from the new value with its new kind, whatever kind the element was constructed with. -/
+theorem setter_kind_change_takes_effect {e : Elem} (hT : Truthful e) (hmax : 1 ≤ e.maxN) {p : PSt} (hi : Inv e p.st)
+    (hl : p.vals.length = p.st.ver + 1) (v : PVal) (i o : Option GridId) (w : Option WlKey) {k : Key}
+    (hk : reqKey e i o w = some k) :
+    ∃ k2, (pstep e (pstep e p (.set v)).1 (.req i o w)).2 = .built k2 v := by
+  have h := transparent_values hT hmax [.set v, .req i o w] p hi hl
+  rcases fresh_spec hT hmax (p.st.ver + 1) i o w with ⟨hnone, _⟩ | ⟨_, k2, _, _, hf⟩
+  · rw [hnone] at hk; cases hk
+  · refine ⟨k2, ?_⟩
+    simp only [prun, pspec] at h
+    rw [hf] at h
+    simpa [PResp.ofResp] using (List.cons.inj (List.cons.inj h).2).1
+
 /-- **Setter handed the object the element already holds** (the caller edited it in place): the next complete request is
 answered by an instance built from the object's *new* content. -/
-theorem setter_same_object_takes_effect {e : Elem} (hT : Truthful e) (hmax : 1 ≤ e.maxN) {p : PSt} (hp : PInv e p)
-    (c : Nat) (i o : Option GridId) (w : Option WlKey) {k : Key} (hk : reqKey e i o w = some k) :
-    ∃ k2, prun e p [.set { p.stored with content := c }, .req i o w] = [.done, .built k2 { p.stored with content := c }] := by
-  rw [transparent_values hT hmax _ p hp]
-  rcases fresh_spec hT hmax (p.st.ver + 1) i o w with ⟨hnone, _⟩ | ⟨_, k2, _, _, hf⟩
-  · rw [hnone] at hk; cases hk
-  · exact ⟨k2, by simp only [pspec]; rw [hf]; rfl⟩
-
-/-- **Setter that changes the kind of the value**: the next complete request is answered by an instance built from the new
-value with its new kind, whatever kind the element was constructed with. -/
-theorem setter_kind_change_takes_effect {e : Elem} (hT : Truthful e) (hmax : 1 ≤ e.maxN) {p : PSt} (hp : PInv e p)
-    (v : PVal) (i o : Option GridId) (w : Option WlKey) {k : Key} (hk : reqKey e i o w = some k) :
-    ∃ k2, prun e p [.set v, .req i o w] = [.done, .built k2 v] := by
-  rw [transparent_values hT hmax _ p hp]
-  rcases fresh_spec hT hmax (p.st.ver + 1) i o w with ⟨hnone, _⟩ | ⟨_, k2, _, _, hf⟩
-  · rw [hnone] at hk; cases hk
-  · exact ⟨k2, by simp only [pspec]; rw [hf]; rfl⟩
+theorem setter_same_object_takes_effect {e : Elem} (hT : Truthful e) (hmax : 1 ≤ e.maxN) {p : PSt} (hi : Inv e p.st)
+    (hl : p.vals.length = p.st.ver + 1) (c : Nat) (i o : Option GridId) (w : Option WlKey) {k : Key}
+    (hk : reqKey e i o w = some k) :
+    ∃ k2, (pstep e (pstep e p (.set { p.stored with content := c })).1 (.req i o w)).2
+      = .built k2 { p.stored with content := c } :=
+  setter_kind_change_takes_effect hT hmax hi hl _ i o w hk
 
 /-- The mutant "the setter returns early when it is handed the object it already holds" (seeded regression C08-11) serves
 the instance built from the old content. -/
